@@ -161,8 +161,30 @@ def g_missing_scan_bounded(fx):
                     ok = True
     rng = [(bb, 'term') for bb, t in b.calls() if strip_generics(callee_res(t)).endswith('BTreeMap::range')]
     P = Pos(b)
-    le = [(s_, t_) for s_, t_, cond, lab in switch_edges(b, fx, og) if cond[0] == 'call' and cond[1].endswith('::le') and has_call(cond[2][0], '::begin') and has_call(cond[2][1], '::end') and lab is True]
+    # every number added to the result in an iteration has passed the limit test of that iteration (or is the first one): the limit must not sit in one arm only
+    # (after seed C06g: with the test in the "no known change left" arm, one change received far ahead made the other arm push every number below it)
+    edges_all = list(switch_edges(b, fx, og))
+    limit_false = [(s_, t_) for s_, t_, cond, lab in edges_all if cond[0] == 'call' and cond[1].endswith(('::ge', '::gt')) and term_has(cond, lambda x: x == ('const', 'int', 256)) and lab is False]
+    first_none = [(s_, t_) for s_, t_, cond, lab in edges_all if lab == 'None' and cond[0] == 'discr' and has_call(cond, '::first')]
+    n_scans = 0
+    for nb in nxt:
+        for h, blocks, _s in loops:
+            if nb not in blocks:
+                continue
+            some = [(s_, t_) for s_, t_, cond, lab in edges_all if lab == 'Some' and cond[0] == 'discr' and cond[1][0] == 'call' and cond[1][1].endswith('::next') and len(cond[1]) > 3 and cond[1][3] == nb]
+            pushes = [(bb, 'term') for bb, t in b.calls() if bb in blocks and callee_res(t).endswith('::push')]
+            if not some:
+                continue      # the inner walk over the known changes, not the scan itself
+            n_scans += 1
+            if not pushes:
+                ok = False
+            for s_, t_ in some:
+                for pp in pushes:
+                    if not P.every_path_passes((t_, 0), pp, via_edges=limit_false + first_none):
+                        ok = False
+    le = [(s_, t_) for s_, t_, cond, lab in edges_all if cond[0] == 'call' and cond[1].endswith('::le') and has_call(cond[2][0], '::begin') and has_call(cond[2][1], '::end') and lab is True]
     ok2 = bool(rng) and bool(le) and all(P.every_path_passes(None, r, via_edges=le, from_entry=True) for r in rng)
+    ok = ok and n_scans >= 1
     return ok and ok2, 'missing_seqnums: the scan leaves the loop 256 numbers after the first missing one; changes.range(interval) only under begin <= end'
 
 
